@@ -487,6 +487,7 @@ func (*Parser).parseWhere
   modifies stmt.Condition, heap(Lexer.ch), heap(Lexer.pos), heap(Lexer.readPos), heap(Lexer.line), heap(Lexer.column), p.errorRecovery.errors
   ensures parOK(p) && errOK(result) && p.lexer.pos >= old(p.lexer.pos)
   loop 1 invariant parOK(p) && p.lexer.pos >= old(p.lexer.pos) && 0 <= iterations && iterations <= maxIterations && maxIterations == 100
+  loop 1 invariant word-operators-enter-the-where-text-in-their-canonical-spelling-whatever-the-letter-case-written: iterations > 0 ==> (tok.Type == TokenLIKE ==> lastIs(conditions, "LIKE")) && (tok.Type == TokenIS ==> lastIs(conditions, "IS")) && (tok.Type == TokenNULL ==> lastIs(conditions, "NULL")) && (tok.Type == TokenNOT ==> lastIs(conditions, "NOT")) && (tok.Type == TokenAND ==> lastIs(conditions, "&&")) && (tok.Type == TokenOR ==> lastIs(conditions, "||")) && (tok.Type == TokenEQ && tok.Value == "=" ==> lastIs(conditions, "=="))
   loop 1 decreases 101 - iterations
 
 func (*Parser).parseHaving
@@ -496,20 +497,25 @@ func (*Parser).parseHaving
   modifies stmt.Having, heap(Lexer.ch), heap(Lexer.pos), heap(Lexer.readPos), heap(Lexer.line), heap(Lexer.column), p.errorRecovery.errors
   ensures parOK(p) && errOK(result) && p.lexer.pos >= old(p.lexer.pos)
   loop 1 invariant parOK(p) && p.lexer.pos >= old(p.lexer.pos) && 0 <= iterations && iterations <= maxIterations && maxIterations == 100
+  loop 1 invariant word-operators-enter-the-having-text-in-their-canonical-spelling-whatever-the-letter-case-written: iterations > 0 && !inOrderBy ==> (tok__2.Type == TokenLIKE ==> lastIs(conditions, "LIKE")) && (tok__2.Type == TokenIS ==> lastIs(conditions, "IS")) && (tok__2.Type == TokenNULL ==> lastIs(conditions, "NULL")) && (tok__2.Type == TokenNOT ==> lastIs(conditions, "NOT")) && (tok__2.Type == TokenAND ==> lastIs(conditions, "&&")) && (tok__2.Type == TokenOR ==> lastIs(conditions, "||")) && (tok__2.Type == TokenEQ && tok__2.Value == "=" ==> lastIs(conditions, "=="))
   loop 1 decreases 101 - iterations
 @*/
 
 /*@
+pred lastIs(c, w) := len(c) > 0 && c[len(c) - 1] == w
 pred lexMods() := true
 
 func convertValue
   props C11 C06 C16 C17
   option safety
 
+pred clauseWord(u) := u == "JOIN" || u == "INNER" || u == "LEFT" || u == "RIGHT" || u == "FULL" || u == "CROSS" || u == "ON" || u == "WHERE" || u == "GROUP" || u == "HAVING" || u == "ORDER" || u == "LIMIT" || u == "WITH" || u == "MATCH_RECOGNIZE"
+
 func isClauseBoundaryIdent
   props C11 C06 C16 C17
   option safety
   option pure
+  ensures a-clause-word-in-any-letter-case-is-never-taken-as-an-alias: result <==> clauseWord(strings.ToUpper(value))
 
 func (*Parser).parseWindowFunction
   props C11 C06 C16 C17
@@ -862,6 +868,8 @@ func (*Parser).readMRExpr
   props C11 C15
   option safety
   requires parOK(p)
+  before restore an-expression-ends-only-at-parenthesis-depth-zero-at-a-comma-a-closing-parenthesis-or-a-clause-keyword: depth == 0 && (t.Type == TokenRParen || t.Type == TokenComma || (t.Type == TokenIdent && isMRClauseKeyword(t.Value)))
+  atreturn an-expression-that-ends-normally-ends-at-depth-zero: result1 == nil ==> depth == 0
   modifies heap(Lexer.ch), heap(Lexer.pos), heap(Lexer.readPos), heap(Lexer.line), heap(Lexer.column), p.errorRecovery.errors
   ensures parOK(p) && errOK(result1) && p.lexer.pos >= old(p.lexer.pos)
   loop 1 invariant parOK(p) && p.lexer.pos >= old(p.lexer.pos) && 0 <= i
